@@ -58,6 +58,11 @@ fn render(specs: &[&LcSpec]) -> (Rendered, Vec<String>) {
         Some(2) => " =",
         _ => "=",
     };
+    // one rendered file in seven starts with a byte-order mark (drawn from its first block, so that a reduced case keeps it)
+    if specs.first().is_some_and(|s| (s.lines + s.expr.len()) % 7 == 3) {
+        text.push_str("\u{feff}let bom_first = 0;\n");
+        line += 1;
+    }
     for (i, s) in specs.iter().enumerate() {
         let tag = format!("<block name{eq}\"b{i}\" line-count{eq}{}>", quote_attr(&s.expr));
         let mut body: Vec<String> = (0..s.lines).map(|k| format!("x{k};")).collect();
@@ -251,7 +256,7 @@ pub fn random_batch() -> BoxedStrategy<LcBatch> {
 }
 
 pub fn run(run: &mut Run) {
-    run.rule = "every rendered file spells `name=value` in one of three ways (`=`, ` = `, ` =`), drawn from its first block. enumerated: the full grid operator(5) x spacing(4) x N(0..6) x written line count(0..7) x blank-line placement(5: none/first/last/middle/around, alternating empty and whitespace-only) x layout(5: own-line tags, content starting on the tag's line, fully inline, both tags in one comment, nested block inside) restricted to expressible combinations; random: large N (incl. 2^64-1) and blocks up to 400 lines. Non-trivial block = count within 1 of N, or blank lines present, or a non-standard layout; distinct by (batch, block).".into();
+    run.rule = "one rendered file in seven starts with a byte-order mark (and a code line in front of the first block); every rendered file spells `name=value` in one of three ways (`=`, ` = `, ` =`), drawn from its first block. enumerated: the full grid operator(5) x spacing(4) x N(0..6) x written line count(0..7) x blank-line placement(5: none/first/last/middle/around, alternating empty and whitespace-only) x layout(5: own-line tags, content starting on the tag's line, fully inline, both tags in one comment, nested block inside) restricted to expressible combinations; random: large N (incl. 2^64-1) and blocks up to 400 lines. Non-trivial block = count within 1 of N, or blank lines present, or a non-standard layout; distinct by (batch, block).".into();
     run.assumptions = vec!["content lines are JavaScript expression statements `xK;`; counts are cross-checked between construction and the content text".into()];
     run.enumerate("grid", enumerated(400), Some("operator x spacing x N in 0..6 x count in 0..7 x blank placement x layout"), check_batch);
     run.random("large", run.tier.pick(600, 12000), random_batch, check_batch);
